@@ -237,7 +237,8 @@ func crun(args []string) {
 	var mu sync.Mutex
 	var results []runResult
 	styles := []mg.Style{{CoImport: "co"}, {CoImport: "."}, {CoImport: "yy"}, {CoImport: "co", SeqAlso: true},
-		{CoImport: "co", SeqName: "sq"}, {CoImport: ".", SeqName: "."}, {CoImport: "yy", SeqName: "_"}, {CoImport: ".", SeqName: "_"}}
+		{CoImport: "co", SeqName: "sq"}, {CoImport: ".", SeqName: "."}, {CoImport: "yy", SeqName: "_"}, {CoImport: ".", SeqName: "_"},
+		{CoImport: "co", TypeSwitch: true}, {CoImport: ".", TypeSwitch: true}, {CoImport: "co", SeqName: "sq", TypeSwitch: true}}
 
 	type okBatch struct {
 		id    string
@@ -246,6 +247,11 @@ func crun(args []string) {
 		style mg.Style
 	}
 	var okBatches []okBatch
+	nTypeSwitches := 0 // switch statements rendered as type switches (Style.TypeSwitch)
+	defer func() {
+		b, _ := json.Marshal(map[string]int{"switches_rendered_as_type_switches": nTypeSwitches, "import_and_switch_styles": len(styles)})
+		os.WriteFile(filepath.Join(*dir, "style_stats.json"), b, 0o644)
+	}()
 	var compileBatch func(id string, ps []progLine, style mg.Style)
 	compileBatch = func(id string, ps []progLine, style mg.Style) {
 		src := filepath.Join(mod, "src", id)
@@ -259,6 +265,9 @@ func crun(args []string) {
 			mp = append(mp, &mg.Prog{Name: p.Name, Body: p.Body})
 		}
 		coSrc := mg.RenderCo(id, "scratch/vm", style, mp)
+		mu.Lock()
+		nTypeSwitches += strings.Count(coSrc, ".(type)")
+		mu.Unlock()
 		os.WriteFile(filepath.Join(src, "gen.go"), []byte(coSrc), 0o644)
 		cmd := exec.Command(self, "compile-one", "-src", src, "-dst", dst)
 		cmd.Dir = mod
